@@ -366,6 +366,17 @@ func checkC16(r *Run) {
 		for _, st := range storesToField(f, errF) {
 			key := FuncName(f) + "/err"
 			if f != setErr {
+				// SetErrorOnce's body written out where it was called (same test, same lock): judged as a record below
+				inline := false
+				for _, r := range c.errRecords(f) {
+					if r.Inline == st {
+						inline = true
+					}
+				}
+				if inline {
+					r4.OK(key, st.Pos(), "err is stored only when still nil, under muErr (SetErrorOnce written out)")
+					continue
+				}
 				r4.Bad(key, st.Pos(), "BaseClient.err is written outside SetErrorOnce")
 				continue
 			}
@@ -401,110 +412,111 @@ func checkC16(r *Run) {
 	closeM := c.Method("BaseClient", "Close")
 	serve := c.Method("BaseClient", "serve")
 	for _, f := range c.Funcs {
-		eachInstr(f, func(in ssa.Instruction) {
-			k, ok := in.(*ssa.Call)
-			if !ok || c.StaticCalleeOf(&k.Call) != setErr {
-				return
-			}
-			key := FuncName(f) + "/SetErrorOnce"
-			switch {
-			case f == reader && reader != nil:
-				// own client
-				if c.Resolve(k.Call.Args[0]) != ssa.Value(conn.Params[0]) {
-					r4.Bad(key, in.Pos(), "the reader goroutine records its error on another client")
-					return
-				}
-				r4.OK(key, in.Pos(), "reader goroutine records on its own client")
-				// R-C16-3: guarded by state != Disconnected under mu; precedes Closed report and close(Done)
-				dom := false
-				for _, b := range reader.Blocks {
-					iff := blockIf(b)
-					if iff == nil {
-						continue
+		f := f
+		for _, rec := range c.errRecords(f) {
+			rec := rec
+			func() {
+				in := rec.At
+				key := FuncName(f) + "/SetErrorOnce"
+				switch {
+				case f == reader && reader != nil:
+					// own client
+					if c.Resolve(rec.Cli) != ssa.Value(conn.Params[0]) {
+						r4.Bad(key, in.Pos(), "the reader goroutine records its error on another client")
+						return
 					}
-					bin, ok := iff.Cond.(*ssa.BinOp)
-					if !ok {
-						continue
-					}
-					if _, isCS := isLoadOfField(bin.X, csF); !isCS {
-						continue
-					}
-					kk, isK := constInt(bin.Y)
-					if !isK || kk != disc {
-						continue
-					}
-					edge := 0
-					if bin.Op == token.EQL {
-						edge = 1
-					}
-					if DominatedByEdge(reader, in, b, edge, PathQ{}) && c.heldAt(reader, bin.X.(ssa.Instruction), conn.Params[0], muF, "r") {
-						// the guard must be exact: SetErrorOnce on every path of that edge
-						dst := b.Succs[edge]
-						if _, ok := c.mustFollowFrom(reader, dst.Instrs[0], func(x ssa.Instruction) bool { return x == in }, nil); ok {
-							dom = true
-						}
-					}
-				}
-				if !dom {
-					r3.Bad(key+"/guard", in.Pos(), "the reader goroutine's SetErrorOnce is not exactly guarded by `connState != StateDisconnected` read under c.mu: either a graceful Disconnect ends with a non-nil Err(), or an unexpected end leaves Err() nil")
-				} else {
-					r3.OK(key+"/guard", in.Pos(), "error recorded iff the state is not Disconnected (tested under c.mu)")
-				}
-				// error value: result of serve() or of Close()
-				ev := c.Resolve(k.Call.Args[1])
-				okVal := false
-				if phi, ok := ev.(*ssa.Phi); ok {
-					okVal = true
-					for _, e := range phi.Edges {
-						call, callee := c.asCall(e)
-						if call == nil {
-							// the transport closed directly: c.Transport.Close()
-							if k2, isCall := c.Resolve(e).(*ssa.Call); isCall && c.closesTransport(k2, 0) {
-								continue
-							}
-							okVal = false
+					r4.OK(key, in.Pos(), "reader goroutine records on its own client")
+					// R-C16-3: guarded by state != Disconnected under mu; precedes Closed report and close(Done)
+					dom := false
+					for _, b := range reader.Blocks {
+						iff := blockIf(b)
+						if iff == nil {
 							continue
 						}
-						if callee != serve && callee != closeM && !c.closesTransport(call, 0) {
-							okVal = false
+						bin, ok := iff.Cond.(*ssa.BinOp)
+						if !ok {
+							continue
+						}
+						if _, isCS := isLoadOfField(bin.X, csF); !isCS {
+							continue
+						}
+						kk, isK := constInt(bin.Y)
+						if !isK || kk != disc {
+							continue
+						}
+						edge := 0
+						if bin.Op == token.EQL {
+							edge = 1
+						}
+						if DominatedByEdge(reader, in, b, edge, PathQ{}) && c.heldAt(reader, bin.X.(ssa.Instruction), conn.Params[0], muF, "r") {
+							// the guard must be exact: SetErrorOnce on every path of that edge
+							dst := b.Succs[edge]
+							if _, ok := c.mustFollowFrom(reader, dst.Instrs[0], func(x ssa.Instruction) bool { return x == in }, nil); ok {
+								dom = true
+							}
 						}
 					}
-				} else if call, callee := c.asCall(ev); call != nil && callee == serve {
-					okVal = true
-				}
-				if okVal {
-					r3.OK(key+"/value", in.Pos(), "the recorded error is what serve() (or Close()) returned")
-				} else {
-					r3.Bad(key+"/value", in.Pos(), "the recorded error is not the error that ended serve()")
-				}
-				// order
-				eachInstr(reader, func(x ssa.Instruction) {
-					kk, ok := x.(*ssa.Call)
-					if !ok {
-						return
-					}
-					isUpd := c.StaticCalleeOf(&kk.Call) == upd
-					b, isB := kk.Call.Value.(*ssa.Builtin)
-					isClose := isB && b.Name() == "close"
-					if !isUpd && !isClose {
-						return
-					}
-					what := "connStateUpdate(Closed)"
-					if isClose {
-						what = "close(Done)"
-					}
-					if _, found := CanReach(reader, x, func(y ssa.Instruction) bool { return y == in }, PathQ{}); found {
-						r3.Bad(key+"/order", x.Pos(), "%s can run before the error is recorded: whoever observes it sees Err() == nil for a connection that failed (the reconnect loop takes that for a graceful end and stops)", what)
+					if !dom {
+						r3.Bad(key+"/guard", in.Pos(), "the reader goroutine's SetErrorOnce is not exactly guarded by `connState != StateDisconnected` read under c.mu: either a graceful Disconnect ends with a non-nil Err(), or an unexpected end leaves Err() nil")
 					} else {
-						r3.OK(key+"/order", x.Pos(), "SetErrorOnce precedes %s", what)
+						r3.OK(key+"/guard", in.Pos(), "error recorded iff the state is not Disconnected (tested under c.mu)")
 					}
-				})
-			case rm != nil && f == rm.KeepAlive:
-				// judged once below (also when the call is missing altogether)
-			default:
-				r4.Bad(key, in.Pos(), "SetErrorOnce is called from %s: only the reader goroutine and the keep-alive goroutine may record the connection error", FuncName(f))
-			}
-		})
+					// error value: result of serve() or of Close()
+					ev := c.Resolve(rec.Val)
+					okVal := false
+					if phi, ok := ev.(*ssa.Phi); ok {
+						okVal = true
+						for _, e := range phi.Edges {
+							call, callee := c.asCall(e)
+							if call == nil {
+								// the transport closed directly: c.Transport.Close()
+								if k2, isCall := c.Resolve(e).(*ssa.Call); isCall && c.closesTransport(k2, 0) {
+									continue
+								}
+								okVal = false
+								continue
+							}
+							if callee != serve && callee != closeM && !c.closesTransport(call, 0) {
+								okVal = false
+							}
+						}
+					} else if call, callee := c.asCall(ev); call != nil && callee == serve {
+						okVal = true
+					}
+					if okVal {
+						r3.OK(key+"/value", in.Pos(), "the recorded error is what serve() (or Close()) returned")
+					} else {
+						r3.Bad(key+"/value", in.Pos(), "the recorded error is not the error that ended serve()")
+					}
+					// order
+					eachInstr(reader, func(x ssa.Instruction) {
+						kk, ok := x.(*ssa.Call)
+						if !ok {
+							return
+						}
+						isUpd := c.StaticCalleeOf(&kk.Call) == upd
+						b, isB := kk.Call.Value.(*ssa.Builtin)
+						isClose := isB && b.Name() == "close"
+						if !isUpd && !isClose {
+							return
+						}
+						what := "connStateUpdate(Closed)"
+						if isClose {
+							what = "close(Done)"
+						}
+						if _, found := CanReach(reader, x, func(y ssa.Instruction) bool { return y == in }, PathQ{}); found {
+							r3.Bad(key+"/order", x.Pos(), "%s can run before the error is recorded: whoever observes it sees Err() == nil for a connection that failed (the reconnect loop takes that for a graceful end and stops)", what)
+						} else {
+							r3.OK(key+"/order", x.Pos(), "SetErrorOnce precedes %s", what)
+						}
+					})
+				case rm != nil && f == rm.KeepAlive:
+					// judged once below (also when the call is missing altogether)
+				default:
+					r4.Bad(key, in.Pos(), "SetErrorOnce is called from %s: only the reader goroutine and the keep-alive goroutine may record the connection error", FuncName(f))
+				}
+			}()
+		}
 	}
 	c.ruleServeNeverNil(r3)
 	if rm != nil {
@@ -778,4 +790,60 @@ func (c *Ctx) ruleLoopLeavesDisconnect(rr *RuleRep, m *reconnModel) {
 	if n == 0 {
 		rr.Lost(key, "the connected-phase wait has no case on `disconnected`")
 	}
+}
+
+// errRec is one point at which a function records a connection error: a call of SetErrorOnce, or its body written out
+// (`muErr.Lock(); if c.err == nil { c.err = v }; muErr.Unlock()`): then At is the test of the field, which every path
+// through the critical section executes.
+type errRec struct {
+	At       ssa.Instruction
+	Cli, Val ssa.Value
+	Inline   *ssa.Store
+}
+
+func (c *Ctx) errRecords(f *ssa.Function) []errRec {
+	setErr := c.Method("BaseClient", "SetErrorOnce")
+	errF := c.structField("BaseClient", "err")
+	muErr := c.structField("BaseClient", "muErr")
+	var out []errRec
+	eachInstr(f, func(in ssa.Instruction) {
+		if k, ok := in.(*ssa.Call); ok && setErr != nil && c.StaticCalleeOf(&k.Call) == setErr && len(k.Call.Args) == 2 {
+			out = append(out, errRec{At: in, Cli: k.Call.Args[0], Val: k.Call.Args[1]})
+		}
+	})
+	if f == setErr || errF == nil || muErr == nil {
+		return out
+	}
+	for _, st := range storesToField(f, errF) {
+		base, _ := isAddrOfField(st.Addr, errF)
+		if base == nil {
+			continue
+		}
+		for _, b := range f.Blocks {
+			iff := blockIf(b)
+			if iff == nil {
+				continue
+			}
+			bin, ok := iff.Cond.(*ssa.BinOp)
+			if !ok || !isNilConst(bin.Y) || (bin.Op != token.EQL && bin.Op != token.NEQ) {
+				continue
+			}
+			b2, isE := isLoadOfField(bin.X, errF)
+			if !isE || c.Resolve(b2) != c.Resolve(base) {
+				continue
+			}
+			edge := 0
+			if bin.Op == token.NEQ {
+				edge = 1
+			}
+			if !DominatedByEdge(f, st, b, edge, PathQ{}) {
+				continue
+			}
+			if !c.heldAt(f, st, base, muErr, "w") || !c.heldAt(f, bin.X.(ssa.Instruction), base, muErr, "w") {
+				continue
+			}
+			out = append(out, errRec{At: iff, Cli: base, Val: st.Val, Inline: st})
+		}
+	}
+	return out
 }
